@@ -16,6 +16,8 @@ from .abstraction import atom, marker, triple, flatten_tree
 penman = dr.penman
 layout, transform, surface = dr.layout, dr.transform, dr.surface
 MODEL = dr.get_model('amr')
+DEFAULT = dr.get_model('default')
+NOOP = dr.get_model('noop')
 
 
 def proj(o):
@@ -85,6 +87,10 @@ def call(op, args, pool, rng):
         return penman.encode(a[0], model=m)
     if op == 'decode_encode':
         return penman.decode(penman.encode(a[0], model=m), model=m)
+    if op == 'default_roundtrip':
+        return penman.decode(penman.encode(a[0], model=DEFAULT), model=DEFAULT)
+    if op == 'noop_roundtrip':
+        return penman.decode(penman.encode(a[0], model=NOOP), model=NOOP)
     if op == 'relayout':
         # the same triples under another layout: other markers on (mostly) the same triples
         return layout.interpret(layout.reconfigure(a[0], model=m, key=m.canonical_order), m)
@@ -147,7 +153,7 @@ def call(op, args, pool, rng):
 
 
 InPlaceOps = {'union_inplace', 'difference_inplace', 'set_top', 'add_marker', 'rearrange', 'reset_variables'}
-POOLED = {'interpret', 'configure', 'reconfigure', 'decode_encode', 'copy_graph', 'relayout', 'canonicalize_roles', 'reify_edges', 'dereify_edges',
+POOLED = {'interpret', 'configure', 'reconfigure', 'decode_encode', 'default_roundtrip', 'noop_roundtrip', 'copy_graph', 'relayout', 'canonicalize_roles', 'reify_edges', 'dereify_edges',
           'reify_attributes', 'indicate_branches', 'union', 'difference'}
 
 
@@ -168,11 +174,42 @@ def scribble(x):
         x.add('scribbled')
 
 
+NOISE = False
+_NOISE_TEXTS = ['(a / alpha :ARG0-of (b / beta) :mod 7)', '# ::id n\n(x / x :polarity - :ARG1 (y / y :ARG0 x))', '(d / dog :consist-of-of (e / e))']
+
+
+def noise(rng):
+    """Unrelated calls on objects of their own, between the calls of a history (C17: identical across interleavings with other
+    calls): other texts, other models - among them models that compare equal to each other."""
+    from penman.model import Model
+    from penman.models.noop import NoOpModel
+    k = rng.randrange(6)
+    text = _NOISE_TEXTS[rng.randrange(len(_NOISE_TEXTS))]
+    m = [Model(), NoOpModel(), MODEL, DEFAULT, NOOP][rng.randrange(5)]
+    try:
+        if k == 0:
+            penman.encode(penman.decode(text, model=m), model=m)
+        elif k == 1:
+            m.errors(penman.decode(text))
+        elif k == 2:
+            penman.parse_triples(penman.format_triples(penman.decode(text).triples))
+        elif k == 3:
+            list(penman.iterdecode(text + '\n\n' + text, model=m))
+        elif k == 4:
+            transform.reify_attributes(transform.reify_edges(penman.decode(text, model=MODEL), MODEL))
+        else:
+            penman.loads(penman.dumps([penman.decode(text, model=m)], model=m), model=m)
+    except penman.exceptions.PenmanError:
+        pass
+
+
 def replay(h, pool=None):
     pool = initial_pool(h['pool_seed']) if pool is None else pool
     rng = random.Random(0)
     steps = []
     for c in h['hist']:
+        if NOISE:
+            noise(rng)
         before = [proj(o) for o in pool]
         again = None
         rng.seed(json.dumps(c))
@@ -214,6 +251,8 @@ def _mp_replay(job):
 
 
 def main():
+    global NOISE
+    NOISE = '--noise' in sys.argv
     use_mp = '--mp' in sys.argv
     hs = [json.loads(l) for l in sys.stdin if l.strip()]
     if use_mp:
